@@ -80,7 +80,7 @@ func (s *stubProvider) GetTxnOperations(*txn.SidetreeTxn) ([]*operation.Anchored
 
 func c15(r *hx.Run) {
 	fx.Quiet()
-	r.Rule = "every sequence of <=3 (thorough 4) transactions over {ok(A: s1,s2), ok(B: s2,s3), bad anchor string, missing CAS content, count mismatch, duplicate suffix across index files, unknown namespace, unknown protocol version} x store-failure position {none, 1st..3rd Put} x unpublished-store failure x delivery {one notification per transaction, all in one} is processed by the real Observer + TxnProcessor + OperationProvider; the harness store must hold exactly one operation per suffix of every stored transaction, stamped with that transaction's time, number, protocol version, canonical and equivalent references, written by a single Put; failing transactions contribute nothing and do not stop later ones. Intake: a real DocumentHandler with queue / unpublished-store failures on the k-th call leaves both untouched after any refused or failed request. Non-trivial: sequences containing at least one failing element followed by a valid transaction, or a fault."
+	r.Rule = "every sequence of <=4 (thorough 5) transactions over {ok(A: s1,s2), ok(B: s2,s3), bad anchor string, missing CAS content, count mismatch, duplicate suffix across index files, unknown namespace, unknown protocol version} x store-failure position {none, 1st..3rd Put} x unpublished-store failure x delivery {one notification per transaction, all in one} is processed by the real Observer + TxnProcessor + OperationProvider; the harness store must hold exactly one operation per suffix of every stored transaction, stamped with that transaction's time, number, protocol version, canonical and equivalent references, written by a single Put; failing transactions contribute nothing and do not stop later ones. Intake: a real DocumentHandler with queue / unpublished-store failures on the k-th call leaves both untouched after any refused or failed request. Non-trivial: sequences containing at least one failing element followed by a valid transaction, or a fault."
 	const ns = "did:sidetree"
 	p := fx.DefaultProtocol()
 	p.GenesisTime = 10
@@ -131,9 +131,9 @@ func c15(r *hx.Run) {
 		mkTxn("unknownNamespace", "did:other", anchorA, 10, nil, nil),
 		mkTxn("unknownVersion", ns, anchorA, 5, nil, nil),
 	}
-	maxLen := 3
+	maxLen := 4
 	if r.Tier == "thorough" {
-		maxLen = 4
+		maxLen = 5
 	}
 	var seqs [][]int
 	for l := 1; l <= maxLen; l++ {
@@ -144,13 +144,22 @@ func c15(r *hx.Run) {
 		failPut int
 		failDel bool
 		mode    int
+		types   int // index into unpubTypeSets
+	}
+	unpubTypeSets := [][]operation.Type{
+		{operation.TypeCreate, operation.TypeUpdate, operation.TypeRecover, operation.TypeDeactivate},
+		{operation.TypeUpdate, operation.TypeDeactivate}, // strict subset: a create / recover precedes an unpublished type in both batches
+		{operation.TypeCreate},
 	}
 	var jobs []job
 	for _, s := range seqs {
 		for fp := 0; fp <= 3; fp++ {
 			for _, fd := range []bool{false, true} {
 				for mode := 0; mode < 2; mode++ {
-					jobs = append(jobs, job{s, fp, fd, mode})
+					jobs = append(jobs, job{s, fp, fd, mode, 0})
+					if len(s) <= 2 || (len(s) == 3 && r.Tier == "thorough") {
+						jobs = append(jobs, job{s, fp, fd, mode, 1}, job{s, fp, fd, mode, 2})
+					}
 				}
 			}
 		}
@@ -161,7 +170,7 @@ func c15(r *hx.Run) {
 		for _, i := range j.seq {
 			names = append(names, alphabet[i].name)
 		}
-		caseID := fmt.Sprintf("obs|%s|failPut=%d|failDel=%v|mode=%d", strings.Join(names, ","), j.failPut, j.failDel, j.mode)
+		caseID := fmt.Sprintf("obs|%s|failPut=%d|failDel=%v|mode=%d|types=%d", strings.Join(names, ","), j.failPut, j.failDel, j.mode, j.types)
 		if !r.Want(caseID) {
 			return
 		}
@@ -169,7 +178,7 @@ func c15(r *hx.Run) {
 		store.FailPut = func(n int) bool { return n == j.failPut }
 		unpub := &failingUnpub{fail: j.failDel}
 		ver := fx.NewVersion(p, &fx.VersionOpts{CAS: cas, Store: store, TxnProcOpts: []txnprocessor.Option{
-			txnprocessor.WithUnpublishedOperationStore(unpub, []operation.Type{operation.TypeCreate, operation.TypeUpdate, operation.TypeRecover, operation.TypeDeactivate})}})
+			txnprocessor.WithUnpublishedOperationStore(unpub, unpubTypeSets[j.types])}})
 		client := fx.NewClient(ver)
 		ledger := &c15Ledger{ch: make(chan []txn.SidetreeTxn, 8)}
 		sp := &sentinelProvider{inner: fx.ClientProvider{ns: client}, done: make(chan struct{}, 1)}
@@ -273,7 +282,14 @@ func c15(r *hx.Run) {
 		for di, d := range unpub.deleted {
 			if di < len(wants) {
 				got := append([]string{}, d...)
-				ws := append([]string{}, wants[di].suffixes...)
+				var ws []string
+				for _, sfx := range wants[di].suffixes {
+					for _, ut := range unpubTypeSets[j.types] {
+						if alphabet[j.seq[wants[di].k]].types[sfx] == ut {
+							ws = append(ws, sfx)
+						}
+					}
+				}
 				sort.Strings(got)
 				sort.Strings(ws)
 				if strings.Join(got, ",") != strings.Join(ws, ",") {
